@@ -12,8 +12,10 @@ Oracles (evaluated on the implementation's output):
                 return `ok`.
 Failure texts start with a tag: `[D1-closed-left]` when the offending call is a successful 3-link/3-sew
 whose left face is closed (DESIGN.md §8-D1: the right walk is not checked when the left walk closes),
-`[other]` otherwise.  `matches` lets a known finding with matcher kind `three-link-closed-left` absorb
-the first tag only.
+`[D1b-open-right-longer]` when both faces are open, the walks agree ahead of the darts and the right
+face has extra darts behind (`three_link` does not test `rside` after its backward loop), `[other]`
+otherwise.  `matches` lets a known finding with matcher kind `three-link-closed-left` /
+`three-link-open-right-longer` absorb the corresponding tag only.
 """
 import random
 import re
@@ -53,8 +55,13 @@ def classify(op, res, snap_before):
     if m and m.group(1) in ("link", "sew") and m.group(2) == "3" and res.startswith("ok") and snap_before:
         try:
             s = gens.parse_snap(snap_before)
-            if gens.face_shape3(s, int(m.group(3)))[0] == "closed":
+            sl = gens.face_shape3(s, int(m.group(3)))
+            sr = gens.face_shape3(s, int(m.group(4)), right=True)
+            if sl[0] == "closed":
                 return "[D1-closed-left]"
+            # both open, same number of darts ahead, the right face continues behind where the left one ends
+            if sr[0] == "open" and sl[2] == sr[2] and sl[1] < sr[1]:
+                return "[D1b-open-right-longer]"
         except (ValueError, KeyError, IndexError):
             pass
     return "[other]"
@@ -244,11 +251,12 @@ def run(tier, seed):
 
 
 def matches(known, v):
-    """a known finding with matcher kind `three-link-closed-left` (D1) absorbs oracle failures (never
-    model/implementation disagreements) tagged `[D1-closed-left]`; any other failure stays a violation"""
+    """a known finding with matcher kind `three-link-closed-left` (D1) / `three-link-open-right-longer`
+    absorbs oracle failures (never model/implementation disagreements) carrying the matching tag; any other
+    failure stays a violation"""
     if v.get("kind") != "oracle":
         return False
-    if (known.get("matcher") or {}).get("kind") != "three-link-closed-left":
-        return False
+    tag = {"three-link-closed-left": "[D1-closed-left]",
+           "three-link-open-right-longer": "[D1b-open-right-longer]"}.get((known.get("matcher") or {}).get("kind"))
     fail = (v.get("replay") or {}).get("oracle_failure") or ""
-    return fail.startswith("[D1-closed-left]")
+    return tag is not None and fail.startswith(tag)
